@@ -30,7 +30,9 @@ import vlib
 PLAN_VERSION = "lfhtc-10"
 
 # ---- theorem lists (fill from Props/*.lean at integration; names are fully qualified) -----------------------------
-THEOREMS05 = ['UrcuVerif.Lfht.Conc.C05_partial_holds',
+THEOREMS05 = ['UrcuVerif.Lfht.Conc.C05_full_holds',
+              'UrcuVerif.Lfht.Conc.resident_found_traversal',
+              'UrcuVerif.Lfht.Conc.C05_partial_holds',
               'UrcuVerif.Lfht.Conc.chain_L',
               'UrcuVerif.Lfht.Conc.sorted_L',
               'UrcuVerif.Lfht.Conc.unremoved_linked_in_L',
@@ -43,27 +45,37 @@ THEOREMS05 = ['UrcuVerif.Lfht.Conc.C05_partial_holds',
               'UrcuVerif.Lfht.Conc.resident_found',
               'UrcuVerif.Lfht.Conc.invRFL_reach',
               'UrcuVerif.Lfht.Conc.invRFA_reach']
-UNPROVED05 = ['UrcuVerif.Lfht.Conc.C05_full = C05_partial ∧ ResidentFoundTraversal (first/next traversal across calls through the saved iterator: stated, unproved); no mechanised refinement to Spec.Multimap: visible_set_linearizes + found_was_visible + resident_found are the linearisation-point facts, global linearizability is checked by the Wing–Gong oracle on explored schedules only']
-THEOREMS06 = ['UrcuVerif.Lfht.Conc.C06_partial_holds',
+UNPROVED05 = ['(none: C05_full_holds is proved; global linearizability against a multimap is not a theorem - visible_set_linearizes, found_was_visible, resident_found(_traversal) are the linearisation-point facts, the Wing-Gong oracle checks explored schedules)']
+THEOREMS06 = ['UrcuVerif.Lfht.Conc.C06_full_holds',
+              'UrcuVerif.Lfht.Conc.uniq_in_L',
+              'UrcuVerif.Lfht.Conc.no_two_visible',
+              'UrcuVerif.Lfht.Conc.one_winner',
+              'UrcuVerif.Lfht.Conc.C06_partial_holds',
               'UrcuVerif.Lfht.Conc.replace_atomic',
               'UrcuVerif.Lfht.Conc.replace_keeps_key_visible',
               'UrcuVerif.Lfht.Conc.unique_inserts_at_run_head',
               'UrcuVerif.Lfht.Conc.replace_single_owner']
-UNPROVED06 = ['UrcuVerif.Lfht.Conc.C06_full = C06_partial ∧ UniqInL ∧ NoTwoVisible ∧ OneWinner (need a scan-coverage invariant on the duplicate scan: stated, unproved; checked by the dupkey oracle on explored schedules only)']
-THEOREMS07 = ['UrcuVerif.Lfht.Conc.C07_partial_holds',
+UNPROVED06 = []
+THEOREMS07 = ['UrcuVerif.Lfht.Conc.C07_full_holds',
+              'UrcuVerif.Lfht.Conc.reclaim_safe',
+              'UrcuVerif.Lfht.Conc.del_returns_unlinked',
+              'UrcuVerif.Lfht.Conc.no_step_crashes',
+              'UrcuVerif.Lfht.Conc.C07_partial_holds',
               'UrcuVerif.Lfht.Conc.single_owner_state',
               'UrcuVerif.Lfht.Conc.single_owner_run',
               'UrcuVerif.Lfht.Conc.removed_frozen',
               'UrcuVerif.Lfht.Conc.bucket_never_removed_while_published',
               'UrcuVerif.Lfht.Conc.or_instead_of_xchg_two_owners',
               'UrcuVerif.Lfht.Conc.single_owner_needs_xchg']
-UNPROVED07 = ["UrcuVerif.Lfht.Conc.C07_full = C07_partial ∧ DelReturnsUnlinked ∧ ReclaimSafe (gc_bucket postcondition and 'pointer held since before the unlink' invariant: stated, unproved; checked by the quarantine / gp oracles on explored schedules only)"]
-THEOREMS17 = ['UrcuVerif.Lfht.Conc.C17Lfht_partial_holds',
+UNPROVED07 = []
+THEOREMS17 = ['UrcuVerif.Lfht.Conc.C17Lfht_full_holds',
+              'UrcuVerif.Lfht.Conc.solo_terminates_thm',
+              'UrcuVerif.Lfht.Conc.C17Lfht_partial_holds',
               'UrcuVerif.Lfht.Conc.walker_wait_free_thm',
               'UrcuVerif.Lfht.Conc.hop_decreases',
               'UrcuVerif.Lfht.Conc.cas_fails_only_by_interference',
               'UrcuVerif.Lfht.Conc.invU_reach']
-UNPROVED17 = ['UrcuVerif.Lfht.Conc.C17Lfht_full adds SoloTerminates for add / add_unique / add_replace / replace / del (lexicographic measure over helping restarts: stated, unproved; checked by the progress oracle on freeze schedules only); walker_wait_free assumes NoFreedAhead (= the unproved reclaim_safe)']
+UNPROVED17 = []
 AUDIT_MODS = ["UrcuVerif.Lfht.Conc", "UrcuVerif.Lfht.Bits", "UrcuVerif.Machine"]      # with a Props file: model + invariants + statements
 AUDIT_MODEL = ["UrcuVerif.Lfht.Conc." + m for m in ("Types", "Model", "Step", "Step2", "Step3")] + ["UrcuVerif.Lfht.Bits", "UrcuVerif.Machine"]
 MODEL_TARGET = "UrcuVerif.Lfht.Conc.Step3"
